@@ -276,3 +276,7 @@ PLAN["C13"]["units"] = PLAN["C13"]["units"] + ["hypercorn.protocol.h11:H11WSConn
 PLAN["C08"]["units"] = PLAN["C08"]["units"] + [ATS + "protocol_send", TTS + "protocol_send"]
 PLAN["C08"]["trusted_base"] = PLAN["C08"]["trusted_base"] + LIB_IO
 PLAN["C01"]["units"] = PLAN["C01"]["units"] + [UT + "valid_server_name"]
+# C11 "an upgrade is attempted only for ... HTTP/1.1 GET with Upgrade: websocket, Connection: upgrade":
+# the choice between the two stream classes is made in H11Protocol._create_stream
+PLAN["C11"]["units"] = PLAN["C11"]["units"] + [H1P + "_create_stream"]
+PLAN["C11"]["trusted_base"] = PLAN["C11"]["trusted_base"] + LIB_H11
